@@ -75,6 +75,23 @@ def run_one(m, workdir):
         shutil.rmtree(os.path.join(workdir, name), ignore_errors=True)
 
 
+def run_for_property(prop, jobs=4):
+    ms = [m for m in load_mutants() if prop in m['property'].split(',')]
+    # run only this property's check for each of them
+    ms = [dict(m, property=prop) for m in ms]
+    workdir = tempfile.mkdtemp(prefix='mls-selftest-')
+    out = []
+    try:
+        with concurrent.futures.ThreadPoolExecutor(max_workers=jobs) as ex:
+            for res in ex.map(lambda m: run_one(m, workdir), ms):
+                out.append(res)
+    finally:
+        shutil.rmtree(workdir, ignore_errors=True)
+    return {'mutants': len(out), 'fired_or_silent_as_expected': sum(1 for r in out if r[1] == 'ok'),
+            'skipped': sum(1 for r in out if r[1] == 'skipped'),
+            'results': [{'name': r[0], 'verdict': r[1], 'detail': r[2][:240], 'seconds': round(r[3])} for r in out]}
+
+
 def main(argv):
     jobs = 4
     names = []
